@@ -129,6 +129,90 @@ func kindOf(lex []reflex.Lexeme, i int, skipNL bool) string {
 	return "after:" + prevKind(lex, i, skipNL) + ",before:" + nextKind(lex, i, skipNL)
 }
 
+// contexts returns, for every boundary (before lexeme i; i = len(lex) is the
+// end of the file), the innermost enclosing bracket construct, named by the
+// keyword/shape that opened it: top, import(, params(, call(, group(,
+// slicetype[, index[, lit{, if{, else{, for{, switch{, func{, block{.
+// This is a purely lexical classification (own token scan, no parser).
+func contexts(lex []reflex.Lexeme) []string {
+	var toks []int
+	for i, l := range lex {
+		if isTok(l) {
+			toks = append(toks, i)
+		}
+	}
+	ctx := make([]string, len(lex)+1)
+	var stack []string
+	top := func() string {
+		if len(stack) == 0 {
+			return "top"
+		}
+		return stack[len(stack)-1]
+	}
+	ti := -1
+	for i, l := range lex {
+		ctx[i] = top()
+		if !isTok(l) {
+			continue
+		}
+		ti++
+		prev := func(k int) reflex.Lexeme {
+			if ti-k >= 0 {
+				return lex[toks[ti-k]]
+			}
+			return reflex.Lexeme{Type: reflex.Newline}
+		}
+		next := reflex.Lexeme{Type: reflex.Newline}
+		if ti+1 < len(toks) {
+			next = lex[toks[ti+1]]
+		}
+		switch l.Type {
+		case reflex.OpeningRoundBracket:
+			p1 := prev(1)
+			switch {
+			case p1.Type == reflex.Import:
+				stack = append(stack, "import(")
+			case p1.Type == reflex.Identifier && prev(2).Type == reflex.FunctionDefinition:
+				stack = append(stack, "params(")
+			case p1.Type == reflex.Identifier || reflex.IsBuiltin(p1.Type) || p1.Type == reflex.StringLiteral:
+				stack = append(stack, "call(")
+			default:
+				stack = append(stack, "group(")
+			}
+		case reflex.OpeningSquareBracket:
+			switch {
+			case next.Type == reflex.ClosingSquareBracket:
+				stack = append(stack, "slicetype[")
+			default:
+				stack = append(stack, "index[")
+			}
+		case reflex.OpeningCurlyBracket:
+			name := "block{"
+			if prev(1).Type == reflex.DataType && next.Type != reflex.Newline {
+				name = "lit{"
+			} else {
+				for k := 1; ; k++ {
+					q := prev(k)
+					if q.Type == reflex.Newline {
+						break
+					}
+					if q.Type == reflex.If || q.Type == reflex.Else || q.Type == reflex.For || q.Type == reflex.Switch || q.Type == reflex.FunctionDefinition {
+						name = q.Text + "{"
+						break
+					}
+				}
+			}
+			stack = append(stack, name)
+		case reflex.ClosingRoundBracket, reflex.ClosingSquareBracket, reflex.ClosingCurlyBracket:
+			if len(stack) > 0 {
+				stack = stack[:len(stack)-1]
+			}
+		}
+	}
+	ctx[len(lex)] = top()
+	return ctx
+}
+
 // Transformation names, in the order of the property's list.
 var transformations = []string{"crlf", "lf", "indent-none", "indent-tab", "indent-blanks", "trailing-blanks",
 	"blank-line", "comment-line", "block-comment-line", "final-nl-absent", "final-nl-present",
@@ -137,8 +221,9 @@ var transformations = []string{"crlf", "lf", "indent-none", "indent-tab", "inden
 func findSites(src string, lex []reflex.Lexeme) []site {
 	var out []site
 	n := len(lex)
+	ctx := contexts(lex)
 	add := func(t, kind string, pos int, e edit, nlDup, final bool) {
-		out = append(out, site{t: t, kind: kind, e: e, pos: pos, nlDup: nlDup, final: final})
+		out = append(out, site{t: t, kind: "in:" + ctx[pos] + "," + kind, e: e, pos: pos, nlDup: nlDup, final: final})
 	}
 	lineStart := func(i int) { // lexeme index i begins a line
 		if i >= n || lex[i].Type == reflex.Newline {
@@ -481,7 +566,16 @@ func (c *checker) evalItem(it item) {
 	for k := 0; k < 2; k++ {
 		s2, t2, r2 := p.judge(text)
 		if s2 != symptom || t2 != tg || r2[0].Script != res[0].Script || r2[1].Script != res[1].Script {
-			c.harness.CompareAndSwap(nil, fmt.Sprintf("re-run of a failing variant of %s did not reproduce (%s/%s vs %s/%s)", p.name, symptom, tg, s2, t2))
+			c.harness.CompareAndSwap(nil, fmt.Sprintf("re-run of a failing variant of %s did not reproduce (%s/%s vs %s/%s); variant %q; errors: %q %q / %q %q", p.name, symptom, tg, s2, t2, text, res[0].Err, res[1].Err, r2[0].Err, r2[1].Err))
+			return
+		}
+	}
+	// the environment must not have changed under us (e.g. the std directory next to
+	// the binary being rebuilt): the base must still transpile to the recorded result
+	for k, t := range targets {
+		again := drive.TranspileSrc(p.src, t)
+		if again.Script != p.base[k].Script || again.HasErr != p.base[k].HasErr {
+			c.harness.CompareAndSwap(nil, fmt.Sprintf("the base layout of %s no longer transpiles to the recorded result (%q): the environment changed during the run", p.name, again.Err))
 			return
 		}
 	}
@@ -571,7 +665,7 @@ func Run() int {
 	thorough := r.Thorough()
 	c := &checker{run: r, distinct: findings.NewDistinct(), finds: map[string]*finding{}, outcomes: map[string]int{},
 		perT: map[string]int{}, notPres: map[string]int{}, cells: map[string]int{}}
-	c.deadline = r.Deadline(5*time.Minute, 25*time.Minute)
+	c.deadline = r.Deadline(10*time.Minute, 28*time.Minute)
 
 	all, err := corpus()
 	if err != nil {
@@ -658,11 +752,31 @@ func Run() int {
 	}
 
 	// ---- phase 1: deviation 1, all-at-once per transformation, whole-file styles
-	heavyMs := 8.0
+	// Quick tier: every program gets one site per (transformation, site kind) cell
+	// (the first one); programs that are expensive to transpile (they import a library —
+	// every transpilation re-lexes the 260-line std/strings.tsh — or are long) get
+	// every all-at-once/style variant but single-site variants only for
+	// (transformation, site kind) cells that fewer than two cheaper programs
+	// already exercise. The thorough tier applies every site of every program.
+	isHeavy := func(p *pinfo) bool {
+		for _, t := range p.baseToks {
+			if t.t == reflex.Import {
+				return true
+			}
+		}
+		return len(p.baseToks) > 150
+	}
+	order := make([]int, len(c.progs))
+	for i := range order {
+		order[i] = i
+	}
+	sort.SliceStable(order, func(a, b int) bool { return !isHeavy(c.progs[order[a]]) && isHeavy(c.progs[order[b]]) })
+	cellCover := map[string]int{}
 	var items []item
 	nHeavy := 0
-	for pi, p := range c.progs {
-		heavy := p.costMs > heavyMs && !thorough
+	for _, pi := range order {
+		p := c.progs[pi]
+		heavy := isHeavy(p) && !thorough
 		if heavy {
 			nHeavy++
 		}
@@ -670,13 +784,17 @@ func Run() int {
 		byT := map[string][]int{}
 		for si, s := range p.sites {
 			byT[s.t] = append(byT[s.t], si)
-			if heavy {
-				cell := s.t + "@" + s.kind
-				if seenCell[cell] {
-					continue
-				}
-				seenCell[cell] = true
+			cell := s.t + "@" + s.kind
+			if !thorough && seenCell[cell] {
+				continue // quick: one site per (transformation, site kind) cell and program
 			}
+			if heavy && cellCover[cell] >= 2 {
+				continue
+			}
+			if !seenCell[cell] {
+				cellCover[cell]++
+			}
+			seenCell[cell] = true
 			items = append(items, item{p: pi, sites: []int{si}, phase: "single"})
 		}
 		// all sites of one transformation at once (only the individually token-preserving ones)
@@ -752,7 +870,7 @@ func Run() int {
 					ok = append(ok, si)
 				}
 			}
-			small := len(ok) <= 260
+			small := len(ok) <= 160
 			for x := 0; x < len(ok); x++ {
 				for y := x + 1; y < len(ok); y++ {
 					a, b := p.sites[ok[x]], p.sites[ok[y]]
@@ -800,7 +918,7 @@ func Run() int {
 	r.Set("base_status_by_origin", baseStatus)
 	r.Set("work_items_phase1", nPhase1)
 	r.Set("work_items_pairs", nPairs)
-	r.Set("heavy_programs_one_site_per_cell", nHeavy)
+	r.Set("heavy_programs_reduced_to_uncovered_cells", nHeavy)
 	r.Set("variants_by_phase_and_transformation", c.perT)
 	r.Set("variants_rejected_by_reference_lexer_as_not_token_preserving", c.notPres)
 	r.Set("overlapping_edit_pairs_skipped", int(c.overlap))
